@@ -125,7 +125,10 @@ def search(prop, versions, seed=0, budget=300):
                 steps = []
                 for _ in range(rng.randint(1, 7)):
                     if rng.random() < 0.2:
-                        steps.append(("send", rng.choice((0, 1, 2)), rng.choice((1, 3)), 1, 0, rng.choice((0, 2)), rng.choice(("1", "0", "x")), rng.random() < 0.8))
+                        n_ = rng.choice((0, 1, 2))
+                        msg = rng.choice([(n_, 1, 1, 0, 2, "1"), (n_, 1, 1, 0, 0, "20"), (n_, 255, 3, 0, 13, ""), (n_, 255, 3, 0, 19, ""),
+                                          (n_, 1, 2, 0, 2, ""), (n_, 255, 0, 0, 17, "2.2"), (n_, 255, 4, 0, 0, "x")])
+                        steps.append(("send",) + msg + (rng.random() < 0.8,))
                     else:
                         steps.append(("recv", rng.choice(al)))
                 try:
